@@ -19,6 +19,9 @@ def configs(tier, seed):
     for n in ([2, 3] if tier == "quick" else [2, 3, 4]):
         for branch in ("pre", "fn"):
             cfgs.append(dict(kind="predict", n=n, k=1, model="sup", branch=branch, nq=2, batches=B2, wstride=1, weight=(n ** n) * 50))
+            # arbitrary relevance marks left by earlier predictions vs a never-used model
+            cfgs.append(dict(kind="predict", n=n, k=1, model="sup", branch=branch, nq=2, batches=[[0, 1], [1, 0]], symrel=True,
+                             wstride=1, weight=(n ** n) * 60))
     return cfgs
 
 
@@ -30,7 +33,7 @@ def signature(prop, cfg, viol):
 def describe(v, tier):
     v.bounds = dict(models="supervised (semi-supervised inherits predict), KNN-supervised, unsupervised",
                     state="injected fitted model with n<=3 (quick) / n<=4 (thorough) training samples, symbolic costs/labels/order",
-                    histories="predict([a]); predict([a,b]); predict([b,a]); predict([a,a]); predict([a]) -- all outputs for a must agree, model state must be unchanged (thorough adds batches of 3)")
+                    histories="predict([a]); predict([a,b]); predict([b,a]); predict([a,a]); predict([a]) -- all outputs for a must agree, model state must be unchanged (thorough adds batches of 3); supervised additionally: arbitrary relevance marks (the only trace earlier predict calls leave) vs a never-used model")
     v.assumptions = ["exp uninterpreted; distances symbolic in [0, FLOAT_MAX)", "supervised: conquest order is any permutation with non-decreasing cost"]
     v.outside = ["batches larger than 3", "n > 4"]
     v.stubs = ["numpy -> symx.symnp", "np.exp -> uninterpreted function", "logging -> null logger"]
